@@ -40,6 +40,14 @@ def norm_site(o):
     return s
 
 
+def aud_key(site):
+    """Site signatures are compared modulo binding mode: unary `*`, `&`, `&mut` are dropped (`removed_pos[*pair_idx]` and
+    `removed_pos[pair_idx]` are the same operation on the same value)."""
+    s = re.sub(r"(?<![\w)\]\s])\*(?=[\w(])", "", site)
+    s = re.sub(r"(?<![\w)\]&])&(?:mut )?(?=[\w(*])", "", s)
+    return s
+
+
 def run(ctx, res):
     P = ctx.lib
     res.explanation = (
@@ -86,7 +94,7 @@ def run(ctx, res):
 
     aud_sites = {}
     for e in audited["sites"]:
-        aud_sites[(e["fn"], e["site"])] = e
+        aud_sites[(e["fn"], aud_key(e["site"]))] = e
     entry_assume = {e["fn"]: e for e in audited["entry_assumptions"]}
     classes = {}
     ledger = []
@@ -153,12 +161,13 @@ def run(ctx, res):
                     cls = None
                     detail = "arithmetic on a value that does not originate from lengths, positions, counters or literals"
             if cls is None:
-                a = aud_sites.get((fshort(b), site))
+                nsite = aud_key(site)
+                a = aud_sites.get((fshort(b), nsite))
                 if a is not None:
                     results = [(pid,) + premise(pid) for pid in a["premises"]]
                     if all(r[1] for r in results):
                         cls = "AUD"
-                        used_aud.add((fshort(b), site))
+                        used_aud.add((fshort(b), nsite))
                         detail = a["invariant"]
                     else:
                         badp = [r for r in results if not r[1]][0]
@@ -197,7 +206,7 @@ def run(ctx, res):
     res.trusted += ["A-SIZE: every operand of a usize + or * is a length, position, counter or literal of an in-memory string (each <= isize::MAX; the longest sum has < 16 terms): inputs shorter than usize::MAX / 16 bytes",
                     "std functions not listed in sa/spec_tables.py are presumed total (blacklist)", "recursion depth = nesting depth of the input (stack exhaustion and allocation failure are outside)"]
     for e in audited["sites"]:
-        if (e["fn"], e["site"]) in used_aud:
+        if (e["fn"], aud_key(e["site"])) in used_aud:
             res.trusted.append("AUD %s | %s: %s [premises: %s]" % (e["fn"], e["site"], e["invariant"], ", ".join(e["premises"])))
     res.extra["premises"] = {k: {"ok": v[0], "detail": v[1]} for k, v in premise_cache.items()}
     no_unsafe(ctx, res, bodies)
@@ -343,6 +352,17 @@ def _verify_count(b, s):
                 if vals <= {"(%s + 1)" % a, a}:
                     return True, "fold(0, +0/+1) over %s.chars(): at most one per character <= byte length" % pname
         return False, "fold does not add 0 or 1 per character of the argument"
+    # s.chars().filter(pred).count(): at most one per character <= byte length
+    tail = T.peel(b["tree"])
+    while tail.get("k") in ("blockexpr", "block"):
+        blk_ = tail["block"] if tail["k"] == "blockexpr" else tail
+        if blk_["stmts"] or blk_.get("tail") is None:
+            break
+        tail = T.peel(blk_["tail"])
+    if tail.get("k") == "mcall" and tail["name"] == "count":
+        r = T.peel_ref(tail["recv"])
+        if r.get("k") == "mcall" and r["name"] in ("filter", "take_while", "skip_while") and T.render(r["recv"]) in ("%s.chars()" % pname, "%s.bytes()" % pname, "%s.char_indices()" % pname):
+            return True, "%s over %s.chars(), counted: at most one per character <= byte length" % (r["name"], pname)
     return False, "counting idiom not recognised"
 
 
